@@ -90,6 +90,8 @@ def ref_decode(eng, items, pos=0, depth=0):
         k, mask = 4, 0x07
     elif eng.branch_bool(z3.ULT(b, 0xfc)):
         k, mask = 5, 0x03
+    elif eng.branch_bool(z3.ULT(b, 0xfe)):
+        k, mask = 6, 0x01          # the consensus decoder accepts a six-byte size field (value still < 2^34)
     else:
         raise RefErr('bad prefix')
     if pos + (k - 1) > len(items):
@@ -98,6 +100,8 @@ def ref_decode(eng, items, pos=0, depth=0):
     for i in range(k - 1):
         size = (size << 8) | z3.ZeroExt(56, items[pos + i].e)
     pos += k - 1
+    if eng.branch_bool(z3.UGE(size, 0x400000000)):
+        raise RefErr('size too large')
     remaining = len(items) - pos
     # concretise size over the feasible range
     for s in range(0, remaining + 1):
@@ -136,6 +140,7 @@ def py_decode(bs, pos=0):
     elif b < 0xf0: k, mask = 3, 0x0f
     elif b < 0xf8: k, mask = 4, 0x07
     elif b < 0xfc: k, mask = 5, 0x03
+    elif b < 0xfe: k, mask = 6, 0x01
     else: raise ValueError('bad prefix')
     if pos + k - 1 > len(bs):
         raise ValueError('truncated')
@@ -143,7 +148,7 @@ def py_decode(bs, pos=0):
     for i in range(k - 1):
         size = (size << 8) | bs[pos + i]
     pos += k - 1
-    if size > len(bs) - pos:
+    if size >= 0x400000000 or size > len(bs) - pos:
         raise ValueError('short')
     return list(bs[pos:pos + size]), pos + size
 
@@ -187,6 +192,10 @@ class Decode(Harness):
     def cases(self, tier):
         for n in self.lengths[tier]:
             yield dict(n=n)
+        # the longest size fields: first byte 0xf8..0xfe with all size bytes present
+        for n, lo in ((6, 0xf8), (7, 0xfc), (8, 0xfe)):
+            if n not in self.lengths[tier]:
+                yield dict(n=n, first_ge=lo)
 
     def sym_inputs(self, case):
         return dict(b=sym_bytes('b', case['n']))
@@ -198,6 +207,8 @@ class Decode(Harness):
         return dict(b=ev_bytes(model, inp['b']))
 
     def run(self, eng, case, inp):
+        if case.get('first_ge') and inp['b'][0].c is None:
+            eng.assume(z3.And(z3.UGE(inp['b'][0].e, case['first_ge']), inp['b'][0].e != 0xff))
         stream = mk_stream(eng, inp['b'])
         alloc = Ref(Cell(Struct('Allocator', [])))
         res = eng.call('serialize::sexp_from_stream', [alloc, Ref(Cell(stream)), Cell(Struct('SimpleCreateCLVMObject', []), 'box')])
@@ -241,6 +252,9 @@ class Decode(Harness):
         vs = []
         for _ in range(12):
             v = [rnd.choice([0xff, 0x80, 0x81, 0x82, 1, 0x7f, 0xc0, 0xe0, 0xf0, 0xf8, 0xfc, 0, rnd.randrange(256)]) for _ in range(n)]
+            if case.get('first_ge'):
+                v[0] = rnd.randrange(case['first_ge'], 0xff)
+                v[1:] = [rnd.choice([0, 0, 0, 1]) for _ in range(n - 1)]
             vs.append(v)
         return [dict(b=v) for v in vs]
 
